@@ -495,7 +495,7 @@ pub async fn explore_history(
     }
     let last = tick(4 * h.events.len() as i64);
     let mut clocks = vec![last + DAY / 4];
-    if behind_clock && !h.events.is_empty() {
+    if behind_clock && !h.events.is_empty() && h.events.len() <= 2 {
         clocks.push(last - DAY / 4); // caller's clock is behind the last definition change
     }
     out.state(&r1.ro.matrix(&[tick(1), tick(5), tick(9), tick(13)]));
